@@ -46,9 +46,10 @@ def reply_oracle(din, dout, acts, ap, sk, raw_out, out_bytes):
         if root_of(allc, nid) != root_of(allc, tid): return 'reply %s is not threaded under the thread of comment %s (thread root %s, expected %s)' % (nid, tid, root_of(allc, nid), root_of(allc, tid))
         # shown with the thread: some metadata block lists both
         blocks = [bk for bk in re.findall(r'\{>>(.*?)<<\}', raw_out, re.S) if '[Com:%s]' % nid in bk]
-        anchored = any(n == ['crs', root_of(allc, tid)] for p in A.paras(dout) for n in _flat(p['nodes']))
-        if anchored and not blocks and not any(k in ('ACCEPT', 'REJECT') for k, _, _ in acts): return 'reply %s is not shown in the raw view' % nid
-        if blocks and not any('[Com:%s]' % root_of(allc, tid) in bk for bk in blocks): return 'reply %s is shown apart from the thread it answers' % nid
+        root = root_of(allc, tid)
+        root_shown = '[Com:%s]' % root in raw_out        # a thread whose range covers no text is not displayed at all (D11-like); then there is nothing to be shown with
+        if root_shown and not blocks and not any(k in ('ACCEPT', 'REJECT') for k, _, _ in acts): return 'reply %s is not shown in the raw view although its thread (comment %s) is' % (nid, root)
+        if blocks and not any('[Com:%s]' % root in bk for bk in blocks): return 'reply %s is shown apart from the thread it answers' % nid
     iss = docrun.struct_issues(out_bytes)
     if iss: return iss[0]
     return None
